@@ -236,8 +236,8 @@ class Executor(threading.Thread):
             raise RuntimeError('Executor not running')
         outcome = futures.Future()
         self._pending[self._index] = outcome
+        _verif('submit', executor=id(self), task=self._index)  # before the task becomes visible to the workers
         self._tasks.put(Task(self._index, entry))
-        _verif('submit', executor=id(self), task=self._index)
         self._index += 1
         return outcome
 
